@@ -29,7 +29,7 @@ ASSUMPTIONS = [
 ]
 
 SHAPES = ("never_connected", "connect_in_flight", "retry_wait", "connected_idle", "mid_packet", "in_callback", "during_send", "after_fault",
-          "reset_and_send", "write_fault", "busy_closed_send", "dump_device_full")
+          "reset_and_send", "write_fault", "busy_closed_send", "dump_device_full", "in_nested_callback")
 # shapes only used by the close-before-timer pass (a client-internal timer is pending: back-off, busy-gateway pause, connect retry)
 TIMER_SHAPES = ("retry_wait", "after_fault", "busy_backoff", "connect_in_flight", "connected_idle", "reset_and_send")
 CLIENT_TASKS = ("connect", "_receive_loop", "_process_queue", "send", "_seed_network_map", "close", "_receive_impl")
@@ -53,10 +53,12 @@ def run_case(kind, shape, k, mode, post=("connect", "send", "data", "eof"), duri
         c = s.make_client()
         if shape == "in_callback":
             s.receive_behaviour = lambda i: 1.5
+        if shape == "in_nested_callback":
+            s.receive_behaviour = lambda i: "nested"
         conn = None
         if shape != "never_connected":
             conn = asyncio.ensure_future(c.connect())
-        if shape in ("connected_idle", "mid_packet", "in_callback", "during_send", "after_fault", "reset_and_send", "busy_backoff", "write_fault", "busy_closed_send", "dump_device_full"):
+        if shape in ("connected_idle", "mid_packet", "in_callback", "in_nested_callback", "during_send", "after_fault", "reset_and_send", "busy_backoff", "write_fault", "busy_closed_send", "dump_device_full"):
             while not s.gw.links:
                 await asyncio.sleep(0.01)
             await conn                      # connect() has returned: status callback done, receive loop started
@@ -64,7 +66,7 @@ def run_case(kind, shape, k, mode, post=("connect", "send", "data", "eof"), duri
         link = s.gw.link
         if shape == "mid_packet":
             link.feed(valid_packet(kind)[:6])
-        elif shape == "in_callback":
+        elif shape in ("in_callback", "in_nested_callback"):
             link.feed(valid_packet(kind) + valid_packet(kind, sid=2))
         elif shape == "during_send" and kind != "actisense":
             s.gw.write_actions[s.gw.total_writes + 1] = ("pause", 25)
@@ -155,7 +157,7 @@ def run_case(kind, shape, k, mode, post=("connect", "send", "data", "eof"), duri
 
         def outstanding_now():
             names = {aio._task_name(t).split(".")[-1] for t in asyncio.all_tasks(loop) if not t.done()}
-            return bool(names & {"connect", "send"}) or (shape == "in_callback" and len(s.received) > 0) or shape in ("mid_packet",)
+            return bool(names & {"connect", "send"}) or (shape in ("in_callback", "in_nested_callback") and len(s.received) > 0) or shape in ("mid_packet",)
 
         started = []
 
@@ -216,6 +218,12 @@ def evaluate(kind, shape, k, mode, outcome, s, during=None):
         lr = [t for t, _ in s.received if t > s.close_returned + 1e-9]
         if lr:
             out.append((f"{tag}|callback-after-close", f"{len(lr)} receive callback(s) after close() returned", case))
+        # a callback that was running when close() was called has been cancelled and has ENDED by the time close() returns (callbacks of
+        # the harness need loop iterations, but no time, to wind up after a cancellation)
+        running = [(st_, i) for _, st_, i in s.callback_exits if st_ > s.close_returned_step]
+        if running:
+            out.append((f"{tag}|callback-running-after-close", f"receive callback number {running[0][1]} was still running when close() returned (close() returned at loop "
+                        f"step {s.close_returned_step}, the callback ended at step {running[0][0]})", case))
     if getattr(s, "links_open_at_return", None):
         out.append((f"{tag}|link-open-when-close-returned", f"links {s.links_open_at_return} were still open when a close() call returned", case))
     open_links = [l.index for l in s.gw.links if not (l.closed_by_client or l.lost_called)]   # shut by the client or already lost (reset)
@@ -313,6 +321,107 @@ def _timers(ctx: Ctx, item):
     ctx.klass("close_just_before_a_timer", n)
 
 
+def run_from_callback(kind, who, fault, n_after):
+    """close() called BY one of the application's callbacks (the usual "shut down when the link drops" / "stop after this message"
+    handler): it is a close() like any other - it returns, the state is CLOSED, the link is shut, nothing is delivered afterwards, no new
+    connection is opened and the client's background tasks finish."""
+    s = aio.Session(kind, connect_plan=[("accept",)])
+    s.status_mode = "plain"
+    res = {}
+
+    async def main(s):
+        loop = s.loop
+        c = s.make_client()
+        plain_status, plain_receive = c.status_callback, c.receive_callback
+
+        async def closing(tag):
+            res["called"] = loop.time()
+            res["from"] = tag
+            try:
+                await c.close()
+                res["returned"] = loop.time()
+            except BaseException as e:          # noqa: BLE001 - recorded and passed on
+                res["interrupted"] = type(e).__name__
+                raise
+            res["received_at_return"] = len(s.received)
+            res["attempts_at_return"] = len(s.gw.attempts)
+
+        async def on_status(state):
+            await plain_status(state)
+            if "called" not in res and ((who == "status-disconnected" and state.name == "DISCONNECTED") or (who == "status-connected" and state.name == "CONNECTED")):
+                await closing(who)
+
+        async def on_receive(msg):
+            await plain_receive(msg)
+            if "called" not in res and who == "receive":
+                await closing(who)
+        c.set_status_callback(on_status)
+        c.set_receive_callback(on_receive)
+        await c.connect()
+        await asyncio.sleep(0.1)
+        link = s.gw.link
+        if who == "receive" and link is not None:
+            link.feed(b"".join(valid_packet(kind, sid=i + 1) for i in range(1 + n_after)))
+        elif who == "status-disconnected" and link is not None:
+            if n_after:
+                link.feed(b"".join(valid_packet(kind, sid=i + 1) for i in range(n_after)))
+                await asyncio.sleep(0.05)
+            (link.eof if fault == "eof" else link.reset)()
+        await asyncio.sleep(15.0)
+        for l in s.gw.links:
+            if not (l.closed_by_client or l.lost_called or l.dead):
+                l.feed(valid_packet(kind, sid=99))
+        await asyncio.sleep(5.0)
+        res["state"] = c.state.name
+        res["tasks_left"] = sorted({aio._task_name(t).split(".")[-1] for t in asyncio.all_tasks(loop) if not t.done()} & set(CLIENT_TASKS))
+        res["links_open"] = [l.index for l in s.gw.links if not (l.closed_by_client or l.lost_called)]
+        res["received"] = len(s.received)
+        res["attempts"] = len(s.gw.attempts)
+        res["status"] = [x for _, x in s.status_trace]
+    outcome = s.run(main, max_steps=100_000)
+    return outcome, s, res
+
+
+def check_from_callback(kind, who, fault, n_after):
+    outcome, s, r = run_from_callback(kind, who, fault, n_after)
+    case = {"from_callback": True, "client": kind, "who": who, "fault": fault, "n_after": n_after}
+    tag = f"C14|{kind}|close-from-{who}-callback"
+    out = []
+    if outcome != "ok":
+        return [(f"{tag}|{outcome}", f"session ended with {outcome}: {s.errors[:1]}", case)], r
+    if "called" not in r:
+        return out, r
+    if "returned" not in r:
+        out.append((f"{tag}|close-did-not-return", f"close() called by the {who} callback "
+                    + (f"was interrupted by {r['interrupted']}" if "interrupted" in r else "never returned") + f" (state {r['state']}, tasks left {r['tasks_left']})", case))
+    if r["state"] != "CLOSED":
+        out.append((f"{tag}|not-closed", f"20 s after close() was called by the {who} callback the state is {r['state']}", case))
+    if r["tasks_left"]:
+        out.append((f"{tag}|tasks-left", f"20 s after close() was called by the {who} callback these client tasks are still pending: {r['tasks_left']}", case))
+    if r["links_open"]:
+        out.append((f"{tag}|link-open", f"links {r['links_open']} were never shut", case))
+    if "returned" in r and (r["received"] > r["received_at_return"] or r["attempts"] > r["attempts_at_return"]):
+        out.append((f"{tag}|activity-after-close", f"after close() returned: {r['received'] - r['received_at_return']} message(s) delivered, "
+                    f"{r['attempts'] - r['attempts_at_return']} connection attempt(s)", case))
+    st_ = r["status"]
+    if any(a == b for a, b in zip(st_, st_[1:])) or (st_ and st_[-1] != "CLOSED") or st_.count("CLOSED") != 1:
+        out.append((f"{tag}|status-trace", f"status callback trace {st_}", case))
+    return out, r
+
+
+def _from_callback(ctx: Ctx, item):
+    kind, = item
+    for who, fault, n_after in (("status-disconnected", "eof", 0), ("status-disconnected", "reset", 0), ("status-disconnected", "eof", 3), ("status-connected", None, 0),
+                                ("receive", None, 0), ("receive", None, 1), ("receive", None, 5)):
+        ctx.count()
+        res, r = check_from_callback(kind, who, fault, n_after)
+        if "called" in r:
+            ctx.nontrivial_extra += 1
+            ctx.klass("close_called_by_callback:" + who)
+        for b, w, c in res:
+            ctx.report(b, w, c)
+
+
 def _work(ctx: Ctx, item):
     kind, n = item
 
@@ -343,12 +452,15 @@ def run(ctx: Ctx):
                     jobs.append((kind, shape, part, modes_for(i)))
     pmap(ctx, _enumerate, jobs)
     pmap(ctx, _during, [(k,) for k in aio.CLIENT_KINDS])
+    pmap(ctx, _from_callback, [(k,) for k in aio.CLIENT_KINDS])
     pmap(ctx, _timers, [(k,) for k in aio.CLIENT_KINDS])
     pmap(ctx, _work, [(k, 10 if ctx.quick else 800) for k in aio.CLIENT_KINDS for _ in range(4)])
     ctx.notes["close_steps_enumerated"] = f"{len(ks)} step offsets x {len(SHAPES)} shapes x 4 clients" + ("" if ctx.quick else " x 3 callback modes (every step 0..129)")
 
 
 def replay(ctx: Ctx, case):
+    if case.get("from_callback"):
+        return check_from_callback(case["client"], case["who"], case["fault"], case["n_after"])[0]
     during = tuple(case["during"]) if case.get("during") else None
     res, _ = check(ctx, case["client"], case["shape"], case["k"], case["mode"], during)
     if during and during[0] == "timer":
